@@ -69,7 +69,7 @@ func genCase(prop string) func(t *rapid.T) Case {
 				op.Out = rapid.SampledFrom([]string{"val", "val", "val", "valnorel", "valsame", "valzero", "valerr", "err", "errrel", "errcanceled"}).Draw(t, "out")
 				op.Pick = rapid.IntRange(0, 3).Draw(t, "pick")
 			case "finishcb":
-				op.Out = rapid.SampledFrom([]string{"nil", "nil", "err"}).Draw(t, "out")
+				op.Out = rapid.SampledFrom([]string{"nil", "nil", "err", "ctxerr"}).Draw(t, "out")
 				op.Pick = rapid.IntRange(0, 3).Draw(t, "pick")
 			case "consumer":
 				op.Kind = rapid.SampledFrom(cons).Draw(t, "kind")
@@ -903,6 +903,10 @@ func body(c *sched.Ctl, cs Case, v *ev.Verdict) {
 						iv.returned = true
 						if out == "err" {
 							iv.result = fmt.Errorf("access-cb-error-%d", iv.id)
+						}
+						if out == "ctxerr" {
+							// a well-behaved callback: it reports the end of the context it was given
+							iv.result = cbCtx.Err()
 						}
 						return iv.result
 					})
